@@ -1,11 +1,13 @@
 import Cirbo.Proofs.Traverse
+import Cirbo.Proofs.Dfs
 /-!
 # C20 — Traversals visit exactly the reachable gates in a valid order
 
 -- OBLIGATION: c20_top_sort_inputs_first
 -- OBLIGATION: c20_top_sort_outputs_first
 -- OBLIGATION: c20_traverse_reach_exact
--- PARTIAL: DFS hook order (enter before exit, post-order exits, balance) and exactness of the cycle check are modelled (Model/Traverse.lean, hasCycleCheck) and compared with the code event by event on every run; their theorems are not proved yet. Termination of the traversal loop within the model fuel is by correspondence.
+-- OBLIGATION: c20_dfs_exits_exact
+-- PARTIAL: DFS hook order (enter before exit, post-order exits; balance — every entered gate is exited exactly once — is proved) and exactness of the cycle check are modelled (Model/Traverse.lean, hasCycleCheck) and compared with the code event by event on every run; their theorems are not proved yet. Termination of the traversal loop within the model fuel is by correspondence.
 -/
 namespace Cirbo
 
@@ -64,8 +66,18 @@ theorem c20_traverse_reach_exact {c : Circuit} (bfs inverse : Bool) (start : Opt
         unvisiteds log = order.filter unreached :=
   traverse_reach_exact bfs inverse start tsu ab hne h
 
+/-- DFS hooks are balanced: whenever the depth-first traversal returns, the exit hook received
+exactly the reachable gates, each once — the same gates that were yielded (entered). -/
+theorem c20_dfs_exits_exact {c : Circuit} (inverse : Bool) (start : Option (List Label)) (tsu ab : Bool)
+    {log : List Ev} (hne : c.gates ≠ []) (h : traverse c false inverse start tsu ab = .ok log) :
+    let next := if inverse then c.usersOf else c.opsOf
+    let q0 := start.getD (if inverse then c.inputs else c.outputs)
+    (exits log).Nodup ∧ (∀ l, l ∈ exits log ↔ Reach next q0 l) ∧ (∀ l, l ∈ exits log ↔ l ∈ yields log) :=
+  dfs_exits_exact inverse start tsu ab hne h
+
 #print axioms c20_top_sort_inputs_first
 #print axioms c20_top_sort_outputs_first
 #print axioms c20_traverse_reach_exact
+#print axioms c20_dfs_exits_exact
 
 end Cirbo
